@@ -279,6 +279,9 @@ def build_bitfields(run, prop, E, cd):
         if getattr(fld, "val", None) is not None or isinstance(fld, cd.BitField.Spare):
             return E.inline(func, args, kwargs)
         x = Z(E.as_int(models.getitem(E, vals, fld.name)))
+        if fld.offset < 0 or fld.bl < 1:
+            # outside the contract's pre-condition (a broken layout): execute the body instead
+            return E.inline(func, args, kwargs)
         return wrap_int((x % (1 << fld.bl)) * (1 << fld.offset))
     E.summaries = {"codec.BitField.enc_val": enc_summary}
 
